@@ -177,12 +177,18 @@ theorem BL_skippedLangs (n : Nat) (b : Buf) (h : BL T n b) : BL T n (skippedLang
   exact BL_sublist T n _ _ ((List.filter_sublist (l := b.takeWhile isSpaceTok)).trans
     (List.takeWhile_sublist _)) h
 
-theorem BL_filterSetToks (n p : Nat) (ts : List Tok) (hp : p < n) (h : ∀ t ∈ ts, isLang t = true ∧ t.txt = []) :
+theorem BL_filterSetToks (n p : Nat) (ts : List Tok) (hp : p < n) (h : injOk ts) :
     BL T n (filterSetToks ts p false) := by
   intro t ht
   simp only [filterSetToks, List.mem_map, List.mem_filter] at ht
   obtain ⟨u, ⟨hu, _⟩, rfl⟩ := ht
-  exact OTok_BTok T n _ (OTok_lang_at T n p u (h u hu).1 (h u hu).2 hp)
+  rcases h u hu with hl | hf
+  · exact OTok_BTok T n _ (OTok_lang_at T n p u hl.1 hl.2 hp)
+  · refine ⟨⟨hp, ?_, ?_, ?_⟩, ?_⟩
+    · intro hfix; simp [hf.2] at hfix
+    · simp [ctlEmpty, hf.1]
+    · simp [mbOk, hf.1]
+    · simp [isMathTok, hf.1]
 
 /-- language tokens of any output list, re-positioned to an anchor -/
 theorem BL_filterSetToks_lang (n m p : Nat) (ts : List Tok) (hp : p < n) (h : OL T m ts) :
